@@ -110,7 +110,7 @@ TSweep ==
 
 TMutateEnd ==
     /\ IsEvent("MutateEnd")
-    /\ LET o == [slots |-> ToSlots(Ev.slots), calls |-> Ev.calls, dEvals |-> Ev.dEvals] IN
+    /\ LET o == [slots |-> ToSlots(Ev.slots), calls |-> Ev.calls, dEvals |-> Ev.dEvals, steps |-> Ev.steps] IN
        /\ MutateEndU(o)
        /\ Step(Failing(PcOk(pc = "mutating") @@ ME_Clauses(o)))
 
